@@ -136,9 +136,21 @@ def main(argv=None):
 
     todo = []
     for i in ids:
+        seen_f = set()
         for c in results[i].get("candidates", []):
             if c.get("confirmed") is None and "model" in c:
-                todo.append((i, c))
+                # one counterexample per (obligation, facet) is replayed first; further ones only while the budget lasts
+                todo.append((0 if c["facet"] not in seen_f else 1, i, c))
+                seen_f.add(c["facet"])
+    todo.sort(key=lambda x: x[0])
+    cap = int(os.environ.get("VERIF_MAX_REPLAYS", "150"))
+    skipped = len(todo) - cap if len(todo) > cap else 0
+    for _pr, i, c in todo[cap:]:
+        c["confirmed"] = False
+        c["replay"] = dict(skipped="replay budget (%d) used up by other counterexamples of this run" % cap)
+    todo = [(i, c) for _pr, i, c in todo[:cap]]
+    if skipped:
+        print("NOTE property=%s %d further solver counterexamples were not replayed (budget %d; set VERIF_MAX_REPLAYS to raise it)" % (prop, skipped, cap))
 
     def rp(item):
         i, c = item
